@@ -177,6 +177,12 @@ def units(tier):
         us.append(Unit('C02/D/MultiTaskBCD[T=1,intercept=%s,sparse=%s,warm=%s]' % (fi, sp, warm), STP.u_multitask_run,
                        dict(X='corr32', fit_intercept=fi, sparse=sp, warm=warm, budget=(2, 1), want=('certificate',)),
                        wall_s=90, timeout_ms=8000))
+    # GramCD with acceleration, three iterations: the state kept after an ACCEPTED extrapolation (contract stub, exact catalogue
+    # proposals) must still certify what a later tolerance stop returns
+    us.append(Unit('C02/D/GramCD-accelerated[L1,3 iterations]', u_vi,
+                   dict(cfg=dict(solver='GramCD', datafit='Quadratic', penalty='L1', X='corr32', max_iter=3, max_iter_unpatched=21,
+                                 acc_stub=1, use_acc=True, greedy_cd=False, warm=True, fit_intercept=False,
+                                 acc_catalogue=[1.0, 0.0])), wall_s=100, max_paths=6000, timeout_ms=8000, patched=True))
     for pen, X, greedy in itertools.product(['L1', 'L1+', 'WeightedL1', 'IndicatorBox'], ['corr32', 'gen32'], (False, True)):
         if q and dh((pen, X, greedy)) % 2:
             continue
